@@ -1,6 +1,6 @@
 #!/bin/sh
 # usage: try_seed.sh <seed dir with patch.diff> <Cxx> [<Cyy> ...]   -- applies the patch to /repo, runs the checks, reverts
-d="$1"; shift
+d="$(cd "$1" && pwd)"; shift
 cd /repo || exit 2
 if ! git diff --quiet; then echo "repo dirty"; exit 2; fi
 if ! git apply --check "$d/patch.diff" 2>/dev/null; then echo "PATCH DOES NOT APPLY: $d"; exit 3; fi
